@@ -584,6 +584,7 @@ func partialUpdates(run *ev.Run, set *bridge.Set, td *corpus.TypeDef, rng *rand.
 		top     []assign // assignment of the top-level fields
 		spec    []string // exclusion paths ("/a/b" form without leading slash in NewPathSpec)
 		exhaust bool
+		forced  map[string]assign // assignments fixed along a path ("/a/b/c" form)
 	}
 	var plans []plan
 	nTop := len(fis)
@@ -600,6 +601,35 @@ func partialUpdates(run *ev.Run, set *bridge.Set, td *corpus.TypeDef, rng *rand.
 				c /= 4
 			}
 			plans = append(plans, plan{top: a, exhaust: true})
+		}
+	}
+	// excluded fields three levels down, reached through two nested patches: the leaf is set (or deleted) although the
+	// spec excludes it, and, as a control, a sibling path is excluded while the leaf is set
+	deep := 0
+	for ti, fi := range fis {
+		if !fi.isRecord {
+			continue
+		}
+		for _, mid := range fieldsOf(s, fi.rtd) {
+			if !mid.isRecord {
+				continue
+			}
+			for li, leaf := range fieldsOf(s, mid.rtd) {
+				if deep >= 8 {
+					break
+				}
+				deep++
+				top := make([]assign, len(fis))
+				top[ti] = aPatch
+				leafPath := "/" + fi.f.Name + "/" + mid.f.Name + "/" + leaf.f.Name
+				op := aSet
+				if leaf.optional && li%2 == 1 {
+					op = aDelete
+				}
+				forced := map[string]assign{"/" + fi.f.Name: aPatch, "/" + fi.f.Name + "/" + mid.f.Name: aPatch, leafPath: op}
+				plans = append(plans, plan{top: top, spec: []string{leafPath[1:]}, forced: forced})
+				plans = append(plans, plan{top: top, spec: []string{fi.f.Name + "/" + mid.f.Name + "/noSuchLeaf"}, forced: forced})
+			}
 		}
 	}
 	for i := 0; i < budget; i++ {
@@ -645,6 +675,12 @@ func partialUpdates(run *ev.Run, set *bridge.Set, td *corpus.TypeDef, rng *rand.
 		var desc, illegal []string
 		required := map[string][]string{}
 		pick := func(fi fieldInfo, depth int, path string) assign {
+			if a, ok := pl.forced[path]; ok {
+				return a
+			}
+			if pl.forced != nil {
+				return aNone // nothing but the forced path is touched
+			}
 			if depth == 0 {
 				for i, x := range fis {
 					if x.f.Name == fi.f.Name {
